@@ -54,7 +54,8 @@ def gen_component(rr, name, stage):
     if rr.random() < 0.4:
         c['override'] = {'px': {'variables': {'v1': 'px-v1'}, 'command': {'arguments': 'px %(v1)s'}}}
     if rr.random() < 0.3:
-        c['resourceManager'] = {'config': {'walltime': 30.0}}
+        # a typed option, optionally through a variable (whose value may then not convert: the query must say so)
+        c['resourceManager'] = {'config': {'walltime': rr.choice([30.0, 30.0, '%(v2)s'])}}
     return c
 
 
@@ -80,7 +81,7 @@ def gen_history(rr):
         else:
             cid = [rr.choice([0, 1]), rr.choice(NAMES)]
         if k < 0.22:
-            ops.append({'op': 'query', 'cid': cid, 'platform': rr.choice(PLATFORMS + [None]), 'flags': rr.choice([0, 0, 0, 1, 2])})
+            ops.append({'op': 'query', 'cid': cid, 'platform': rr.choice(PLATFORMS + [None]), 'flags': rr.choice([0, 0, 0, 1, 2, 3, 3])})
         elif k < 0.32:
             ops.append({'op': 'set_component_variable', 'cid': cid, 'name': rr.choice(VARS), 'value': rr.choice(VALUES)})
         elif k < 0.38:
@@ -223,7 +224,8 @@ def shrink_candidates(case):
 # ---------------------------------------------------------------------------------------------------
 FLAGSETS = [dict(raw=False, include_default=True),  # the cached combination
             dict(raw=True, include_default=True),
-            dict(raw=False, include_default=False, is_primitive=True)]
+            dict(raw=False, include_default=False, is_primitive=True),
+            dict(raw=False, include_default=True, ignore_convert_errors=True)]  # lenient variant of the cached one
 
 
 def fix_doc(doc):
